@@ -2,6 +2,7 @@ package main
 
 import (
 	"fmt"
+	"go/token"
 	"sort"
 	"strings"
 
@@ -16,7 +17,8 @@ func init() {
 			"(R06.2) every id given to Cache.PutBytes/GetFile is a package's GarbleActionID or sha256(GarbleActionID || distinct constant [|| kind]), and each kind is written and read through the same derivation; " +
 			"(R06.3) GarbleActionID has one definition, addGarbleToHash(actionID(BuildID)); " +
 			"(R06.4) -V=full is answered, for every tool that has a transform, with a build id computed by addGarbleToHash; " +
-			"(R06.5) the linker stamp compared and written is getCurrentVersion(goVersion, hash of every patch file's bytes) with the same operands on both sides. " +
+			"(R06.5) the linker stamp compared and written is getCurrentVersion(goVersion, hash of every patch file's bytes) with the same operands on both sides; " +
+			"(R06.6) a value that garble compiles into package P and derives from a GarbleActionID uses P's own action ID: cmd/go recompiles P only when P's action ID changes. " +
 			"Does not decide the completeness of cmd/go's own action IDs nor that an unchanged rebuild recompiles nothing.",
 		perConfig: checkC06,
 	})
@@ -113,6 +115,7 @@ func checkC06(c *Ctx) {
 	checkActionIDDef(c)
 	checkToolVersion(c)
 	checkLinkerStamp(c)
+	checkForeignActionIDs(c)
 }
 
 // R06.2
@@ -436,4 +439,90 @@ func checkLinkerStamp(c *Ctx) {
 	}
 	c.Check(okHash, "R06.5", "patch hash covers every patch file", "", "each walked patch file's bytes are written to the version hash",
 		"the linker stamp no longer depends on the bytes of every embedded patch: an edited patch would not rebuild the cached linker")
+}
+
+// R06.6. While compiling package P, garble patches two constants into the standard library
+// that are derived from the GarbleActionID of a package named by a constant path. cmd/go
+// caches P's object under P's own action ID, so the path must be P itself: a value taken
+// from another package's action ID (one that P does not depend on) goes stale in GOCACHE
+// when only that package is rebuilt, while the link step computes the new value.
+func checkForeignActionIDs(c *Ctx) {
+	w := c.W
+	c.Rule("R06.6", "a value compiled into package P and derived from a GarbleActionID uses P's own action ID", 2)
+	tc := w.Fn("(*transformer).transformCompile")
+	if tc == nil {
+		c.Undecided("R06.6", "transformCompile", "", "function not found")
+		return
+	}
+	n := 0
+	for _, name := range []string{"magicValue", "entryOffKey"} {
+		fn := w.Fn(name)
+		if fn == nil {
+			continue
+		}
+		for _, cs := range w.CallsToFn(fn) {
+			if cs.Fn != tc {
+				continue
+			}
+			n++
+			// the package being compiled on this path: tf.curPkg.ImportPath == K
+			compiled := ""
+			for _, f := range edgeFacts(cs.Instr.Block()) {
+				bo, ok := f.V.(*ssa.BinOp)
+				if !ok || bo.Op != token.EQL || !f.Outcome {
+					continue
+				}
+				if k, ok := constString(bo.Y); ok && w.BackSlice(bo.X, sliceOpt{}).Fields["listedPackage.ImportPath"] {
+					compiled = k
+				}
+			}
+			// the package whose action ID the value is derived from: the constant path that
+			// magicValue/entryOffKey hand to the helper which hashes
+			// ListedPackages.get(<path>).GarbleActionID (the hash goes through the global
+			// hasher, so a data-flow slice of the result does not see it)
+			var from []string
+			for _, fb := range fn.Blocks {
+				for _, fi := range fb.Instrs {
+					call, ok := fi.(*ssa.Call)
+					if !ok {
+						continue
+					}
+					callee := call.Call.StaticCallee()
+					if callee == nil {
+						continue
+					}
+					readsActionID := false
+					for _, cb := range callee.Blocks {
+						for _, ci := range cb.Instrs {
+							if fa, ok := ci.(*ssa.FieldAddr); ok && fieldName(fa.X.Type(), fa.Field) == "GarbleActionID" {
+								readsActionID = true
+							}
+						}
+					}
+					if !readsActionID {
+						continue
+					}
+					for _, a := range call.Call.Args {
+						if k, ok := constString(a); ok {
+							from = append(from, k)
+						}
+					}
+				}
+			}
+			sort.Strings(from)
+			key := "transformCompile: " + name + "()"
+			switch {
+			case compiled == "":
+				c.Undecided("R06.6", key, w.Pos(cs.Instr.Pos()), "cannot tell which package is being compiled where the value is patched in")
+			case len(from) == 0:
+				c.Undecided("R06.6", key, w.Pos(cs.Instr.Pos()), "cannot tell which package's GarbleActionID the value is derived from")
+			default:
+				c.Check(len(from) == 1 && from[0] == compiled, "R06.6", key, w.Pos(cs.Instr.Pos()), "compiled into "+compiled+", derived from the action ID of "+strings.Join(from, ", "),
+					"the value is patched into "+compiled+" but derived from the GarbleActionID of "+strings.Join(from, ", ")+": when only the latter is rebuilt (for instance -gcflags="+strings.Join(from, ",")+"=...), the cached object of "+compiled+" keeps the old value while the linker gets the new one, and the program dies at start-up with 'invalid function symbol table'")
+			}
+		}
+	}
+	if n == 0 {
+		c.Undecided("R06.6", "transformCompile", w.Pos(tc.Pos()), "no call of magicValue/entryOffKey found in transformCompile")
+	}
 }
